@@ -56,7 +56,7 @@ ASSUMPTIONS = [
 INT = ("int",)
 LEAF = ("struct", [INT, INT], ["p", "q"])
 ITEM = ("struct", [INT, INT, LEAF], ["id", "n", "l"])
-SUB = ("struct", [INT, LEAF, ("vec", INT)], ["x", "l", "v"])
+SUB = ("struct", [INT, LEAF, ("vec", INT), ("box", LEAF)], ["x", "l", "v", "b"])
 MID = ("struct", [INT, LEAF, ("opt", LEAF), ("keyed", ITEM)], ["x", "l", "o", "k"])
 ROOT = ("struct", [INT, MID, ("opt", SUB), ("vec", SUB), ("keyed", ITEM)], ["a", "m", "o", "v", "k"])
 
@@ -66,12 +66,16 @@ I = lambda i: [2, i]
 K = lambda k: [3, k]
 E = [4, 0]          # hand the field on as a type-erased ArcField (same path)
 EF = [4, 1]         # ... as an arena-allocated Field (a handle to such an ArcField)
+EA = [4, 2]         # first step only: start from the ArcStore handle of the store
+D = [5, 0]          # .deref_field() of a Box field (same path)
 
 
 def has_child(sch, v, st):
     kind, arg = st
     if kind == 4:
         return sch[0] != "keyed"
+    if kind == 5:
+        return sch[0] == "box"
     if sch[0] == "struct":
         return kind == 0 and 0 <= arg < len(sch[1])
     if sch[0] == "opt":
@@ -88,6 +92,8 @@ def child(sch, v, st):
     kind, arg = st
     if kind == 4:
         return sch, v, None
+    if kind == 5:
+        return sch[1], v, None
     if sch[0] == "struct":
         return sch[1][arg], v[arg], arg
     if sch[0] == "opt":
@@ -103,11 +109,20 @@ def well_typed(chain):
     accessed by key only: at_unkeyed on them would alias the segments of the keys)"""
     sch = ROOT
     prev = None
-    for kind, arg in chain:
+    for idx, (kind, arg) in enumerate(chain):
         was, prev = prev, (kind, arg)
         if kind == 4:
+            if arg == 2:
+                if idx != 0:
+                    return False
+                continue
             if sch[0] == "keyed" or arg not in (0, 1) or was == (4, 1):
                 return False
+            continue
+        if kind == 5:
+            if sch[0] != "box" or arg != 0:
+                return False
+            sch = sch[1]
             continue
         if sch[0] == "struct" and kind == 0 and 0 <= arg < len(sch[1]):
             sch = sch[1][arg]
@@ -161,12 +176,14 @@ def all_chains(tree, sch=ROOT, v=None, pre=()):
     elif sch[0] == "keyed":
         for x in v:
             out += all_chains(tree, sch[1], x, pre + (K(x[0]),))
+    elif sch[0] == "box":
+        out += all_chains(tree, sch[1], v, pre + (D,))
     return out
 
 
 def tup(chain):
     """the path a chain addresses: its steps without the type-erasure markers"""
-    return tuple((a, b) for a, b in chain if a != 4)
+    return tuple((a, b) for a, b in chain if a not in (4, 5))
 
 
 def is_prefix(a, b):
@@ -193,7 +210,10 @@ def name(chain):
             out += "[key %d]" % arg
             sch = sch[1] if sch[0] == "keyed" else INT
         elif kind == 4:
-            out += "{Field}" if arg == 1 else "{ArcField}"
+            out += {1: "{Field}", 2: "{ArcStore}"}.get(arg, "{ArcField}")
+        elif kind == 5:
+            out += "*"
+            sch = sch[1] if sch[0] == "box" else INT
         else:
             out += "<%d %d>" % (kind, arg)
     return out
@@ -203,7 +223,7 @@ def diff_paths(sch, old, new, pre):
     """reference for Patch: the fields whose value changed, as the finest paths at which the
     two trees differ (a vector whose length changes, or an option that appears/disappears,
     changes as a whole)"""
-    if sch[0] == "int":
+    if sch[0] in ("int", "box"):
         return [] if old == new else [pre]
     if sch[0] == "struct":
         out = []
@@ -236,6 +256,8 @@ def rnd_int(rng):
 def rnd_value(rng, sch, size=2, keys=None):
     if sch[0] == "int":
         return rnd_int(rng)
+    if sch[0] == "box":
+        return rnd_value(rng, sch[1], size)
     if sch[0] == "struct":
         return [rnd_value(rng, s, size) for s in sch[1]]
     if sch[0] == "opt":
@@ -258,6 +280,8 @@ def mutate(rng, sch, v, top=True):
     keyed collection written directly (top) is reordered / grown / shrunk."""
     if sch[0] == "int":
         return v + rng.randint(1, 5)
+    if sch[0] == "box":
+        return mutate(rng, sch[1], v, False)
     if sch[0] == "struct":
         out = list(v)
         idxs = [i for i in range(len(sch[1])) if not (sch is ITEM and i == 0)]
@@ -331,7 +355,7 @@ def rich_init(rng):
     def items(n):
         return [[k, rnd_int(rng), leaf()] for k in rng.sample(range(1, 30), n)]
     def sub():
-        return [rnd_int(rng), leaf(), [rnd_int(rng) for _ in range(rng.randint(1, 2))]]
+        return [rnd_int(rng), leaf(), [rnd_int(rng) for _ in range(rng.randint(1, 2))], leaf()]
     mid = [rnd_int(rng), leaf(), [leaf()], items(rng.randint(2, 3))]
     return [rnd_int(rng), mid, [sub()], [sub() for _ in range(2)], items(rng.randint(2, 3))]
 
@@ -374,10 +398,13 @@ def schema_at(chain):
 
 
 def erase_randomly(rng, chain, p=0.25):
-    """insert type-erasure markers: the field reached so far is handed on as an ArcField"""
+    """insert type-erasure markers: the field reached so far is handed on as an ArcField / a
+    Field; the chain may start from the ArcStore handle"""
     if rng.random() > p:
         return chain
     out, sch = [], ROOT
+    if rng.random() < 0.3:
+        out.append(list(EA))
     for st in list(chain) + [None]:
         if sch[0] != "keyed" and rng.random() < 0.4:
             out.append(list(rng.choice([E, EF])))
@@ -388,19 +415,34 @@ def erase_randomly(rng, chain, p=0.25):
     return out
 
 
+READ_HOWS = [0, 0, 2, 3, 4, 5]
+
+
 def mk(init, readers, steps, sched, orders, kind, rng=None):
     """readers whose chain addresses a collection may iterate over it (iter_unkeyed / keyed
     into_iter) instead of reading it as a whole"""
-    flavours = []
+    hows, kinds = [], []
     for rd in readers:
-        it = 0
-        if rng is not None and well_typed(rd) and schema_at(rd)[0] in ("vec", "keyed") and rng.random() < 0.5:
-            it = 1
-        flavours.append(it)
+        how, k = 0, 0
+        if rng is not None and well_typed(rd):
+            how = rng.choice(READ_HOWS)
+            what = schema_at(rd)[0]
+            if what in ("vec", "keyed") and rng.random() < 0.5:
+                how = 1
+            if what == "opt" and rng.random() < 0.6:
+                how = rng.choice([6, 7])
+            if kind != "keyed-exact":
+                k = rng.choice([0, 0, 0, 1, 1, 2, 3, 4])
+        hows.append(how)
+        kinds.append(k)
     if rng is not None and kind != "keyed-exact":
         readers = [erase_randomly(rng, rd) if well_typed(rd) else rd for rd in readers]
         steps = [[st[0], erase_randomly(rng, st[1], 0.15), st[2]] if st[0] in (0, 1) else st for st in steps]
-    return dict(case=C.norm([0, init, readers, steps, sched, orders, flavours]), kind=kind, compare=True)
+    if 3 in kinds:
+        # the effect behind a Memo is polled a second time when the memo's value changed (it is
+        # marked dirty while it runs): harmless noise under FIFO, but it shifts a scheduled order
+        sched = []
+    return dict(case=C.norm([0, init, readers, steps, sched, orders, hows, kinds]), kind=kind, compare=True)
 
 
 # ------------------------------------------------------------------------------------------ families
@@ -428,6 +470,8 @@ def gen_allpairs(rng, chunk=9):
 def mutate_same_shape(rng, sch, v):
     if sch[0] == "int":
         return v + rng.randint(1, 5)
+    if sch[0] == "box":
+        return mutate_same_shape(rng, sch[1], v)
     if sch[0] == "struct":
         return [x if (sch is ITEM and i == 0) else mutate_same_shape(rng, s, x)
                 for i, (s, x) in enumerate(zip(sch[1], v))]
@@ -493,7 +537,7 @@ def contains_keyed(sch):
         return True
     if sch[0] == "struct":
         return any(contains_keyed(s) for s in sch[1])
-    if sch[0] in ("opt", "vec"):
+    if sch[0] in ("opt", "vec", "box"):
         return contains_keyed(sch[1])
     return False
 
@@ -502,6 +546,8 @@ def patch_value(rng, sch, v):
     """a new value that changes only some leaves and leaves keyed collections untouched"""
     if sch[0] == "int":
         return v + (rng.randint(1, 5) if rng.random() < 0.5 else 0)
+    if sch[0] == "box":
+        return patch_value(rng, sch[1], v)
     if sch[0] == "struct":
         return [x if (sch is ITEM and i == 0) else patch_value(rng, s, x)
                 for i, (s, x) in enumerate(zip(sch[1], v))]
@@ -749,16 +795,18 @@ def valid_case(item):
     change their key sequence only through a direct write; items keep their key; keys distinct"""
     try:
         c = item["case"]
-        if len(c) not in (6, 7) or c[0] != 0:
+        if len(c) not in (6, 7, 8) or c[0] != 0:
             return False
-        if len(c) == 7 and not (isinstance(c[6], list) and all(x in (0, 1) for x in c[6])):
+        if len(c) >= 7 and not (isinstance(c[6], list) and all(x in range(8) for x in c[6])):
+            return False
+        if len(c) >= 8 and not (isinstance(c[7], list) and all(x in range(5) for x in c[7])):
             return False
         tree, readers, steps = c[1], c[2], c[3]
         if not well_formed(ROOT, tree):
             return False
         def ok_chain(ch):
             return isinstance(ch, list) and all(isinstance(s, list) and len(s) == 2 and
-                                                all(isinstance(x, int) and x >= 0 for x in s) and s[0] <= 4
+                                                all(isinstance(x, int) and x >= 0 for x in s) and s[0] <= 5
                                                 for s in ch) and well_typed(ch)
         if not all(ok_chain(rd) for rd in readers):
             return False
@@ -800,6 +848,8 @@ def valid_case(item):
 def well_formed(sch, v):
     if sch[0] == "int":
         return isinstance(v, int)
+    if sch[0] == "box":
+        return well_formed(sch[1], v)
     if not isinstance(v, list):
         return False
     if sch[0] == "struct":
@@ -836,6 +886,8 @@ def _oracle(item, impl):
     c = item["case"]
     tree, readers, steps, sched = c[1], [tup(r) for r in c[2]], c[3], c[4]
     raw = c[2]
+    kinds = c[7] if len(c) > 7 else [0] * len(raw)
+    imm = lambda e: e < len(kinds) and kinds[e] == 1       # ImmediateEffect: runs inside the notification
     if len(impl) != len(steps) + 2:
         return ("observation has %d phases for %d steps" % (len(impl), len(steps)), dict(step=None, reader=None, what='other'))
 
@@ -848,7 +900,7 @@ def _oracle(item, impl):
     # initial phase: every reader runs once and sees the initial value
     ph = impl[0]
     ran = [r[0] for r in ph[1]]
-    if sorted(ran) != list(range(len(readers))):
+    if sorted(set(ran)) != list(range(len(readers))):
         return ("initial phase: readers that ran = %r" % (ran,), dict(step=None, reader=None, what='other'))
     for e, obs in ph[1]:
         want = expect_obs(tree, e)
@@ -894,7 +946,7 @@ def _oracle(item, impl):
             if e not in expected:
                 what = name(cur[e]) if cur.get(e) is not None else "nothing in the store (chain %s cut short)" % name(readers[e])
                 return ("%s: reader %d of %s was notified" % (label, e, what), dict(step=i, reader=(cur.get(e) or readers[e]), what='spurious'))
-        if sorted(set(wakes)) != sorted(set(ran)):
+        if sorted(set(wakes)) != sorted(set(e for e in ran if not imm(e))):
             return ("%s: woken tasks %r but effects that ran %r" % (label, wakes, ran), dict(step=i, reader=None, what='other'))
         # readers of ancestors are woken before readers of descendants: for every pair of
         # notified readers whose paths are in the proper-prefix relation
@@ -904,7 +956,12 @@ def _oracle(item, impl):
                     if len(cur[a]) < len(cur[d]) and is_prefix(cur[a], cur[d]):
                         below = len(cur[a]) > len(order_path)   # both strictly below the written field
                         bad = None
-                        if wakes.index(a) > wakes.index(d):
+                        if imm(a) != imm(d):
+                            continue   # a synchronous and a scheduled subscriber: no common order
+                        if imm(a):
+                            if ran.index(a) > ran.index(d):
+                                bad = "ran"
+                        elif wakes.index(a) > wakes.index(d):
                             bad = "woken"
                         elif not sched and ran.index(a) > ran.index(d):
                             bad = "ran"
@@ -999,8 +1056,12 @@ def classify(item, impl, model):
     if what in ("value", "noguard", "missed", "spurious", "segments"):
         rd, step = info["reader"], info["step"]
         for kf, first in stale.items():
-            if rd is not None and is_prefix(kf, rd) and (step is None or step >= first) and \
-                    (len(rd) > len(kf) or what == "segments"):
+            if rd is None or (step is not None and step < first):
+                continue
+            # through the stale collection; or (a write through a stale index has landed in
+            # another item) any reader whose value contains the collection
+            if (is_prefix(kf, rd) and (len(rd) > len(kf) or what == "segments")) or \
+                    (what == "value" and is_prefix(rd, kf)):
                 return "F-C16-e"
     return None
 
@@ -1026,7 +1087,7 @@ def coverage_extra(results):
     for r in results:
         c = r["item"]["case"]
         readers = [tup(x) for x in c[2]]
-        iterating += sum(c[6]) if len(c) > 6 else 0
+        iterating += sum(1 for x in c[6] if x == 1) if len(c) > 6 else 0
         for st in c[3]:
             if st[0] == 0:
                 w = tup(st[1])
